@@ -21,6 +21,7 @@
    constructor / destructor call of a ledgered object is an event in the ledger; the harness
    records the same events on the real wrappers and the two logs are compared step by step. *)
 From Coq Require Import List Bool Arith ZArith NArith.
+From Pika Require Import Gen.GenErased.
 Import ListNotations.
 
 (* ------------------------------------------------------------------ ledger *)
@@ -36,6 +37,7 @@ Record ledger := { nxt : nat; elog : list event (* newest first *) }.
 Record oval := {
   vbig : bool;      (* larger than the inline buffer of the wrapper that holds it *)
   vcpy : bool;      (* copy-constructible type *)
+  valn : bool;      (* over-aligned type: alignof(T) > alignment_size (= pointer size) of the sender storages *)
   vbeh : N;         (* callable: 0 plain, 1 throws on odd argument
                        sender: 0 value, 1 error, 2 stopped, 3 connect throws *)
   vpay : Z;         (* payload *)
@@ -60,10 +62,14 @@ Definition ctors (L : ledger) : list nat := flat_map ev_ctor (elog L).
 Definition dtors (L : ledger) : list nat := flat_map ev_dtor (elog L).
 
 (* ------------------------------------------------------------------ storage *)
-Inductive storage := Empty | Heap (o : cobj) | Inline (o : cobj).
+(* Nested s: the wrapper holds (always on the heap: sizeof(function) = 5 pointers > 3, the impl of an
+   any_sender does not fit / SBO is off) ANOTHER WRAPPER whose own storage is s — a function stored in
+   a unique_function, an any_sender stored in a unique_any_sender.  The C++ types allow one level. *)
+Inductive storage := Empty | Heap (o : cobj) | Inline (o : cobj) | Nested (s : storage).
 
 Definition is_empty (s : storage) : bool := match s with Empty => true | _ => false end.
-Definition sid (s : storage) : list nat := match s with Empty => [] | Heap o => [oid o] | Inline o => [oid o] end.
+Fixpoint sid (s : storage) : list nat :=
+  match s with Empty => [] | Heap o => [oid o] | Inline o => [oid o] | Nested s => sid s end.
 Definition ids (l : list storage) : list nat := flat_map sid l.
 
 Inductive outcome :=
@@ -72,19 +78,23 @@ Inductive outcome :=
 | OError (e : Z)        (* set_error(test_error e) *)
 | OStopped              (* set_stopped *)
 | OThrewBad             (* pika::exception with error::bad_function_call *)
-| OThrew (e : Z).       (* the wrapped object's own exception escaped *)
+| OThrew (e : Z)        (* the wrapped object's own exception escaped *)
+| OUndef.               (* the real code has undefined behaviour here (use of a wrapper that a throwing
+                           constructor left inconsistent): the model makes no prediction *)
 
 (* release(): precondition !empty().  Both branches destroy the object (heap: delete,
    embedded: explicit destructor call) and reset the vtable, i.e. the storage is Empty after. *)
-Definition release (s : storage) (L : ledger) : ledger :=
-  match s with Empty => L | Heap o => destroy o L | Inline o => destroy o L end.
+Fixpoint release (s : storage) (L : ledger) : ledger :=
+  match s with Empty => L | Heap o => destroy o L | Inline o => destroy o L | Nested s => release s L end.
 
 (* ================================================================== senders *)
 Section Senders.
   Variable sbo : bool.     (* PIKA_DETAIL_ENABLE_ANY_SENDER_SBO *)
 
-  (* can_use_embedded_storage<Impl>() *)
-  Definition can_embed (v : oval) : bool := sbo && negb (vbig v).
+  (* can_use_embedded_storage<Impl>(): fits_storage && sufficiently_aligned (and the SBO macro).
+     The numeric form of the two conditions is generated from the header (Gen/GenErased.v) and
+     re-checked against the class bits of every test type on every run (TYPES cases). *)
+  Definition can_embed (v : oval) : bool := sbo && negb (vbig v) && negb (valn v).
 
   Definition mk (mv : bool) := if mv then move_obj else copy_obj.
 
@@ -102,14 +112,20 @@ Section Senders.
     | Empty => (Empty, Empty, L)
     | Inline o => let (o', L1) := move_obj o L in (Inline o', Empty, destroy o L1)
     | Heap o => (Heap o, Empty, L)
+    | Nested s => (Nested s, Empty, L)             (* heap pointer steal *)
     end.
 
   (* copy_assign(copyable_sbo_storage const&); precondition: this is empty *)
-  Definition s_copy_assign (other : storage) (L : ledger) : storage * ledger :=
+  Definition s_copy1 (other : storage) (L : ledger) : storage * ledger :=
     match other with
-    | Empty => (Empty, L)
     | Inline o => let (o', L1) := copy_obj o L in (Inline o', L1)     (* clone_into *)
     | Heap o => let (o', L1) := copy_obj o L in (Heap o', L1)         (* clone *)
+    | _ => (Empty, L)
+    end.
+  Definition s_copy_assign (other : storage) (L : ledger) : storage * ledger :=
+    match other with
+    | Nested s => let (c, L1) := s_copy1 s L in (Nested c, L1)   (* not reachable: unique wrappers are not copyable *)
+    | _ => s_copy1 other L
     end.
 
   (* --- wrapper operations; [this]/[other] are the storages of two distinct wrappers --- *)
@@ -143,28 +159,42 @@ Section Senders.
     let (a, L2) := s_copy_assign other L1 in
     (ONone, a, other, L2).
 
+  (* unique_any_sender(Sender&&) / operator=(Sender&&) / reset(Sender&&) with Sender = any_sender&
+     (an L-VALUE any_sender: the non-template any_sender&& overloads are not viable, the template
+     stores a COPY of the any_sender as the wrapped sender): store<impl<any_sender&>>(other) =
+     release, then new impl(other) = any_sender's copy constructor = copy_assign of its storage.
+     The unique_any_sender is non-empty even when the stored any_sender is empty. *)
+  Definition w_nest (this other : storage) (L : ledger) : outcome * storage * storage * ledger :=
+    let L1 := if is_empty this then L else release this L in
+    let (a, L2) := s_copy_assign other L1 in
+    (ONone, match a with Nested _ => a | _ => Nested a end, other, L2).
+
   Definition w_reset (this : storage) (L : ledger) : outcome * storage * ledger :=
     (ONone, Empty, if is_empty this then L else release this L).
 
-  (* what the wrapped sender itself does: connect may throw; otherwise start completes *)
+  (* what the wrapped sender itself does: connect may throw; otherwise start completes.
+     Behaviour 4 is "an empty any_sender" (only as the value of a nested empty wrapper):
+     connect raises bad_function_call *)
   Definition sender_completion (v : oval) : outcome :=
     match vbeh v with
-    | 0%N => OValue (vpay v) | 1%N => OError (vpay v) | 2%N => OStopped | _ => OThrew (vpay v)
+    | 0%N => OValue (vpay v) | 1%N => OError (vpay v) | 2%N => OStopped | 3%N => OThrew (vpay v)
+    | _ => OThrewBad
     end.
   Definition connect_throws (v : oval) : bool := (3 <=? vbeh v)%N.
 
   (* any_operation_state_holder: the operation state of the wrapped sender is stored once
      (never moved), started, and destroyed with the any_operation_state *)
   Definition opstate_of (v : oval) : oval :=
-    {| vbig := vbig v; vcpy := false; vbeh := vbeh v; vpay := vpay v; vcalls := 0 |}.
+    {| vbig := vbig v; vcpy := false; valn := false; vbeh := vbeh v; vpay := vpay v; vcalls := 0 |}.
 
   (* connect(Receiver&&) &&: auto moved_storage = std::move(storage);
        std::move(moved_storage.get()).connect(...)  [empty vtable: throw_bad_any_call];
        ~moved_storage; start; ~any_operation_state *)
-  Definition w_connect_rv (this : storage) (L : ledger) : outcome * storage * ledger :=
+  Definition w_connect_rv1 (this : storage) (L : ledger) : outcome * storage * ledger :=
     let '(ms, this', L1) := s_move_assign this L in
     match ms with
     | Empty => (OThrewBad, this', L1)
+    | Nested _ => (OThrewBad, ms, L1)       (* two levels: not expressible in the C++ types *)
     | Heap o | Inline o =>
       if connect_throws (ov o) then (sender_completion (ov o), this', release ms L1)
       else
@@ -173,11 +203,20 @@ Section Senders.
         let L3 := release ms L2 in           (* ~moved_storage when connect returns *)
         (sender_completion (ov o), this', release hs L3)   (* start, then ~op_state *)
     end.
+  (* a unique_any_sender holding an any_sender: the outer storage is moved (pointer), the outer
+     impl connects the inner any_sender as an r-value, i.e. the inner wrapper runs the same
+     connect && on its own storage inside the outer operation state holder; ~outer moved_storage
+     then deletes the (emptied) inner wrapper *)
+  Definition w_connect_rv (this : storage) (L : ledger) : outcome * storage * ledger :=
+    match this with
+    | Nested s => let '(r, s', L1) := w_connect_rv1 s L in (r, Empty, release s' L1)
+    | _ => w_connect_rv1 this L
+    end.
 
   (* any_sender::connect(Receiver&&) const& : storage.get().connect(...) const& *)
-  Definition w_connect_lv (this : storage) (L : ledger) : outcome * storage * ledger :=
+  Definition w_connect_lv1 (this : storage) (L : ledger) : outcome * storage * ledger :=
     match this with
-    | Empty => (OThrewBad, this, L)
+    | Empty | Nested _ => (OThrewBad, this, L)
     | Heap o | Inline o =>
       if connect_throws (ov o) then (sender_completion (ov o), this, L)
       else
@@ -185,26 +224,82 @@ Section Senders.
         let hs := if can_embed (ov op) then Inline op else Heap op in
         (sender_completion (ov o), this, release hs L2)
     end.
+  (* (an any_sender never holds a nested wrapper; defined for totality: connect const& of the inner) *)
+  Definition w_connect_lv (this : storage) (L : ledger) : outcome * storage * ledger :=
+    match this with
+    | Nested s => let '(r, s', L') := w_connect_lv1 s L in (r, Nested s', L')
+    | _ => w_connect_lv1 this L
+    end.
+
+  (* ---------------- throwing copy / move constructors of the wrapped sender ----------------
+     store<Impl>: release() first, then  new (p) Impl(...) ; object = p   resp.
+     heap_storage = new Impl(...) ; object = heap_storage : when Impl's constructor (= the wrapped
+     sender's copy / move constructor) throws, object still is the empty vtable and the heap block
+     is freed by the new-expression: the wrapper is EMPTY, the old content is gone. *)
+  Definition w_store_throw (v : oval) (ctor : bool) (this : storage) (L : ledger)
+    : outcome * storage * ledger :=
+    let (tmp, L0) := fresh_obj v L in
+    let L1 := release this L0 in        (* ctor: ~W() of the emplaced-over wrapper; else release() in store *)
+    (OThrew 0, Empty, destroy tmp L1).
+  (* copy_assign: release() (operator=) / fresh storage (copy constructor), then clone_into(p) ;
+     object = p  resp.  heap_storage = clone() : the copy constructor throws before object is set *)
+  Definition w_copy_throw (this other : storage) (L : ledger) : outcome * storage * storage * ledger :=
+    match other with
+    | Empty => w_copy this other L                 (* no constructor runs *)
+    | _ => (OThrew 0, Empty, other, release this L)
+    end.
+  Definition w_nest_throw (this other : storage) (L : ledger) : outcome * storage * storage * ledger :=
+    match other with
+    | Empty => w_nest this other L
+    | _ => (OThrew 0, Empty, other, release this L)
+    end.
+  (* move_assign: only the embedded branch constructs (move_into); it runs before object = p and
+     before the moved-from object is destroyed: this is empty (it was released), other unchanged *)
+  Definition w_move_throw (this other : storage) (L : ledger) : outcome * storage * storage * ledger :=
+    match other with
+    | Inline _ => (OThrew 0, Empty, other, release this L)
+    | _ => w_move this other L                     (* pointer steal / nothing: no constructor runs *)
+    end.
+  Definition w_move_from_any_throw (this other : storage) (L : ledger)
+    : outcome * storage * storage * ledger :=
+    match other with
+    | Inline _ => (OThrew 0, Empty, other, release this L)   (* other.reset() is not reached *)
+    | _ => w_move_from_any this other L
+    end.
+  (* connect &&: auto moved_storage = std::move(storage) throws (embedded branch): nothing changed *)
+  Definition w_connect_rv_throw (this : storage) (L : ledger) : outcome * storage * ledger :=
+    match this with
+    | Inline _ => (OThrew 0, this, L)
+    | Nested (Inline _) => (OThrew 0, Empty, release this L)   (* the inner any_sender's move throws inside the
+                                                      outer impl; the outer storage was already moved into
+                                                      moved_storage, whose destructor deletes the impl and
+                                                      with it the inner wrapper and its (unmoved) object *)
+    | _ => w_connect_rv this L
+    end.
 End Senders.
 (* ================================================================== functions *)
-(* function_storage_size = 3 pointers; vtable::allocate<T>: heap iff sizeof(T) > size *)
+(* function_storage_size = 3 pointers; vtable::allocate<T>: heap iff sizeof(T) > size.  The
+   alignment of T is NOT looked at (an over-aligned T that fits is constructed in the inline buffer,
+   whose alignment is that of a pointer). *)
 Definition fn_place (o : cobj) : storage := if vbig (ov o) then Heap o else Inline o.
 
-(* the vtable pointer identifies the stored type T (here: size class and copyability) *)
-Definition same_type (a b : oval) : bool := Bool.eqb (vbig a) (vbig b) && Bool.eqb (vcpy a) (vcpy b).
+(* the vtable pointer identifies the stored type T (here: size class, copyability, alignment
+   class; a stored function<Sig> is one more type) *)
+Definition same_type (a b : oval) : bool :=
+  Bool.eqb (vbig a) (vbig b) && Bool.eqb (vcpy a) (vcpy b) && Bool.eqb (valn a) (valn b).
 Definition vptr_eq (a b : storage) : bool :=
   match a, b with
   | Empty, Empty => true
   | (Heap x | Inline x), (Heap y | Inline y) => same_type (ov x) (ov y)
+  | Nested _, Nested _ => true
   | _, _ => false
   end.
 Definition with_obj (s : storage) (o : cobj) : storage :=
-  match s with Empty => Empty | Heap _ => Heap o | Inline _ => Inline o end.
+  match s with Heap _ => Heap o | Inline _ => Inline o | _ => s end.
 
 (* basic_function::assign(F&& f) for a non-empty f *)
 Definition f_assign (this : storage) (src : cobj) (mv : bool) (L : ledger) : storage * ledger :=
   match this with
-  | Empty => let (o, L2) := mk mv src L in (fn_place o, L2)
   | Heap old | Inline old =>
     if same_type (ov old) (ov src) then
       (* vptr == f_vptr: destroy in place and construct into the same buffer *)
@@ -213,6 +308,9 @@ Definition f_assign (this : storage) (src : cobj) (mv : bool) (L : ledger) : sto
     else
       let L1 := release this L in      (* destroy() *)
       let (o, L2) := mk mv src L1 in (fn_place o, L2)
+  | _ =>
+    let L1 := release this L in      (* destroy() *)
+    let (o, L2) := mk mv src L1 in (fn_place o, L2)
   end.
 
 Definition f_store (v : oval) (mv ctor : bool) (this : storage) (L : ledger)
@@ -223,13 +321,41 @@ Definition f_store (v : oval) (mv ctor : bool) (this : storage) (L : ledger)
   let (s', L2) := f_assign this1 tmp mv L1 in
   (ONone, s', destroy tmp L2).
 
+(* the copy constructor of a function<Sig> whose storage is [other] (one level) *)
+Definition f_clone1 (other : storage) (L : ledger) : storage * ledger :=
+  match other with
+  | Heap o | Inline o => let (o', L2) := copy_obj o L in (fn_place o', L2)
+  | _ => (Empty, L)
+  end.
+Definition f_clone (other : storage) (L : ledger) : storage * ledger :=
+  match other with
+  | Nested s => let (c, L1) := f_clone1 s L in (Nested c, L1)   (* not reachable: unique_function is not copyable *)
+  | _ => f_clone1 other L
+  end.
+
+(* unique_function(F&&) / operator=(F&&) / assign(F&&) with F = function<Sig> (a wrapper as the
+   wrapped callable).  The harness builds the function first:  Callable t(..); function tf(t or
+   move(t));  then stores tf by l- or r-value, then ~tf, ~t.
+   is_empty_function(tf): an EMPTY function argument resets the unique_function (no nesting).
+   Otherwise T = function<Sig> (5 pointers: heap); vptr == f_vptr (a function is already stored):
+   ~function() in place, else destroy() + allocate; then  new (buffer) function(tf or move(tf)):
+   the copy constructor copies the contained callable, the move constructor relocates it. *)
+Definition f_store_fn (v : oval) (inner_empty mvi mv : bool) (this : storage) (L : ledger)
+  : outcome * storage * ledger :=
+  let (tmp, L0) := fresh_obj v L in
+  if inner_empty then (ONone, Empty, destroy tmp (release this L0))
+  else
+    let (c1, L1) := mk mvi tmp L0 in                (* function tf(...) *)
+    let L2 := release this L1 in                    (* ~old wrapper / ~function in place / destroy() *)
+    if mv then (ONone, Nested (fn_place c1), destroy tmp L2)       (* relocated; tf is empty *)
+    else
+      let (c2, L3) := copy_obj c1 L2 in
+      (ONone, Nested (fn_place c2), destroy tmp (destroy c1 L3)).   (* ~tf, ~t *)
+
 (* function_base(function_base const&) through emplace *)
 Definition f_copy_ctor (this other : storage) (L : ledger) : outcome * storage * storage * ledger :=
   let L1 := release this L in
-  match other with
-  | Empty => (ONone, Empty, other, L1)
-  | Heap o | Inline o => let (o', L2) := copy_obj o L1 in (ONone, fn_place o', other, L2)
-  end.
+  let (a, L2) := f_clone other L1 in (ONone, a, other, L2).
 
 (* function_base(function_base&&): takes vptr/object, memcpy of the inline buffer — the same
    object lives on at a new address; other becomes empty *)
@@ -243,14 +369,14 @@ Definition f_copy_assign (this other : storage) (L : ledger) : outcome * storage
     | (Heap old | Inline old), (Heap o | Inline o) =>
       let L1 := destroy old L in
       let (o', L2) := copy_obj o L1 in (ONone, with_obj this o', other, L2)
+    | Nested _, Nested _ =>
+      let L1 := release this L in                       (* ~function() in place *)
+      let (a, L2) := f_clone other L1 in (ONone, a, other, L2)
     | _, _ => (ONone, this, other, L)
     end
   else
     let L1 := release this L in
-    match other with
-    | Empty => (ONone, Empty, other, L1)
-    | Heap o | Inline o => let (o', L2) := copy_obj o L1 in (ONone, fn_place o', other, L2)
-    end.
+    let (a, L2) := f_clone other L1 in (ONone, a, other, L2).
 
 (* op_assign(function_base&&) for this != &other: swap(other); other.reset(empty_vtable) *)
 Definition f_move_assign (this other : storage) (L : ledger) : outcome * storage * storage * ledger :=
@@ -265,16 +391,36 @@ Definition f_reset (this : storage) (L : ledger) : outcome * storage * ledger :=
 (* what the wrapped callable itself does *)
 Definition call (v : oval) (arg : Z) : outcome * oval :=
   let c := (vcalls v + 1)%Z in
-  let v' := {| vbig := vbig v; vcpy := vcpy v; vbeh := vbeh v; vpay := vpay v; vcalls := c |} in
-  if (vbeh v =? 1)%N && Z.odd arg then (OThrew (vpay v * 10 + c)%Z, v')
+  let v' := {| vbig := vbig v; vcpy := vcpy v; valn := valn v; vbeh := vbeh v; vpay := vpay v; vcalls := c |} in
+  if (4 <=? vbeh v)%N then (OThrewBad, v)      (* the value of a nested EMPTY wrapper (bad_val) *)
+  else if (vbeh v =? 1)%N && Z.odd arg then (OThrew (vpay v * 10 + c)%Z, v')
   else (OValue (vpay v * 100 + c * 7 + arg)%Z, v').
 
 (* operator(): vptr->invoke(object, ...); the empty vtable's invoke throws bad_function_call *)
-Definition f_invoke (arg : Z) (this : storage) (L : ledger) : outcome * storage * ledger :=
+Definition f_invoke1 (arg : Z) (this : storage) (L : ledger) : outcome * storage * ledger :=
   match this with
-  | Empty => (OThrewBad, this, L)
   | Heap o => let (r, v') := call (ov o) arg in (r, Heap {| oid := oid o; ov := v' |}, L)
   | Inline o => let (r, v') := call (ov o) arg in (r, Inline {| oid := oid o; ov := v' |}, L)
+  | _ => (OThrewBad, this, L)
+  end.
+(* a stored function is invoked through its own operator() *)
+Definition f_invoke (arg : Z) (this : storage) (L : ledger) : outcome * storage * ledger :=
+  match this with
+  | Nested s => let '(r, s', L') := f_invoke1 arg s L in (r, Nested s', L')
+  | _ => f_invoke1 arg this L
+  end.
+
+(* target<T>(): vptr != get_vtable<T>() || empty() -> nullptr, else the stored object.
+   The query is a test type (size class, copyability, alignment class) or function<Sig> (None).
+   Observation: the stored callable's payload and call count, resp. 1 for a stored function. *)
+Definition tquery := option (bool * bool * bool).
+Definition f_target (q : tquery) (this : storage) : outcome :=
+  match this, q with
+  | (Heap o | Inline o), Some (b, c, a) =>
+    if Bool.eqb (vbig (ov o)) b && Bool.eqb (vcpy (ov o)) c && Bool.eqb (valn (ov o)) a
+    then OValue (vpay (ov o) * 100 + vcalls (ov o)) else ONone
+  | Nested _, None => OValue 1
+  | _, _ => ONone
   end.
 
 (* ================================================================== histories *)
@@ -311,7 +457,8 @@ Inductive sop :=
 | SCopy (j i : nat)            (* any_sender copy ctor / copy assign / reset(W const&) *)
 | SReset (j : nat)
 | SConnectRv (j : nat)
-| SConnectLv (j : nat).
+| SConnectLv (j : nat)
+| SNest (j i : nat).           (* unique_any_sender <- l-value any_sender: the any_sender is stored as the sender *)
 
 Definition sstep (sbo : bool) (op : sop) (st : state) : outcome * state :=
   match op with
@@ -322,6 +469,7 @@ Definition sstep (sbo : bool) (op : sop) (st : state) : outcome * state :=
   | SReset j => op1 w_reset j st
   | SConnectRv j => op1 (w_connect_rv sbo) j st
   | SConnectLv j => op1 (w_connect_lv sbo) j st
+  | SNest j i => op2 w_nest j i st
   end.
 
 Inductive fop :=
@@ -332,7 +480,8 @@ Inductive fop :=
 | FMoveAssign (j i : nat)
 | FSwap (j i : nat)
 | FReset (j : nat)             (* reset(), assign(nullptr), assign of a null function pointer *)
-| FInvoke (j : nat) (arg : Z).
+| FInvoke (j : nat) (arg : Z)
+| FStoreFn (j : nat) (v : oval) (inner_empty mvi mv : bool).   (* unique_function <- function holding v *)
 
 Definition fstep (op : fop) (st : state) : outcome * state :=
   match op with
@@ -344,6 +493,7 @@ Definition fstep (op : fop) (st : state) : outcome * state :=
   | FSwap j i => op2 f_swap j i st
   | FReset j => op1 f_reset j st
   | FInvoke j arg => op1 (f_invoke arg) j st
+  | FStoreFn j v ie mvi mv => op1 (f_store_fn v ie mvi mv) j st
   end.
 
 Definition init (n : nat) : state := {| led := {| nxt := 0; elog := [] |}; slots := repeat Empty n |}.
@@ -373,8 +523,17 @@ End Run.
 
 (* ================================================================== the specification:
    a wrapper is an optional value of the wrapped type *)
+(* the value of a nested wrapper is the value it holds; a nested EMPTY wrapper (only senders: an
+   empty any_sender copied into a unique_any_sender) is a sender whose connect raises
+   bad_function_call — the outer wrapper is NOT empty *)
+Definition bad_val : oval := {| vbig := false; vcpy := true; valn := false; vbeh := 4; vpay := 0; vcalls := 0 |}.
+Definition nest_val (b : option oval) : oval := match b with Some v => v | None => bad_val end.
 Definition abs (s : storage) : option oval :=
-  match s with Empty => None | Heap o => Some (ov o) | Inline o => Some (ov o) end.
+  match s with
+  | Empty => None | Heap o => Some (ov o) | Inline o => Some (ov o)
+  | Nested (Heap o | Inline o) => Some (ov o)
+  | Nested _ => Some bad_val
+  end.
 
 Definition sp1 (f : option oval -> outcome * option oval) (j : nat) (l : list (option oval))
   : outcome * list (option oval) :=
@@ -399,6 +558,7 @@ Definition sspec (op : sop) (l : list (option oval)) : outcome * list (option ov
                                            | Some v => (direct_connect v, None) end) j l
   | SConnectLv j => sp1 (fun x => match x with None => (OThrewBad, None)
                                            | Some v => (direct_connect v, Some v) end) j l
+  | SNest j i => sp2 (fun _ b => (Some (nest_val b), b)) j i l
   end.
 
 Definition fspec (op : fop) (l : list (option oval)) : outcome * list (option oval) :=
@@ -412,6 +572,7 @@ Definition fspec (op : fop) (l : list (option oval)) : outcome * list (option ov
   | FReset j => sp1 (fun _ => (ONone, None)) j l
   | FInvoke j arg => sp1 (fun x => match x with None => (OThrewBad, None)
                                             | Some v => let (r, v') := call v arg in (r, Some v') end) j l
+  | FStoreFn j v ie _ _ => sp1 (fun _ => (ONone, if ie then None else Some v)) j l
   end.
 
 Definition is_none (x : option oval) : bool := match x with None => true | Some _ => false end.
@@ -427,24 +588,69 @@ Fixpoint spec_trace {Op} (spec : Op -> list (option oval) -> outcome * list (opt
 Definition sop_slots (op : sop) : list nat :=
   match op with
   | SStore j _ _ _ => [j] | SMove j i => [j; i] | SMoveFromAny j i => [j; i] | SCopy j i => [j; i]
-  | SReset j => [j] | SConnectRv j => [j] | SConnectLv j => [j]
+  | SReset j => [j] | SConnectRv j => [j] | SConnectLv j => [j] | SNest j i => [j; i]
   end.
 Definition fop_slots (op : fop) : list nat :=
   match op with
   | FStore j _ _ _ => [j] | FCopyCtor j i => [j; i] | FMoveCtor j i => [j; i] | FCopyAssign j i => [j; i]
   | FMoveAssign j i => [j; i] | FSwap j i => [j; i] | FReset j => [j] | FInvoke j _ => [j]
+  | FStoreFn j _ _ _ _ => [j]
   end.
 (* what an observer of the wrappers sees of one step: outcome and emptiness of every wrapper *)
 Definition obs (t : outcome * list event * list bool) : outcome * list bool := (fst (fst t), snd t).
 
-(* ================================================================== throwing copy constructors
-   (finding F9b, outside the main theorems' hypothesis "constructors of wrapped objects do not
-   throw").  function_base::op_assign(function_base const&) destroys the old object first (in
-   place when vptr == other.vptr, through destroy() otherwise) and only then runs T's copy
-   constructor.  When that throws, neither [object] nor (first branch) [vptr] is reset: the
-   wrapper still points at the destroyed object, reports non-empty, and destroys it again.
-   (In the second branch vptr already is other's; the model keeps [this], which is exact for the
-   witness cases the harness replays: same stored type.) *)
+(* ================================================================== throwing constructors, senders
+   Every operation of the sender wrappers that runs a copy / move constructor of the wrapped
+   sender, with that constructor throwing (w_*_throw above follow store / copy_assign /
+   move_assign: the constructor always runs after release() and before [object] is set). *)
+Inductive sxop :=
+| SX (op : sop)
+| SXStoreThrow (j : nat) (v : oval) (ctor : bool)   (* W(S&&) / operator=(S&&) / reset(S&&), l- or r-value *)
+| SXCopyThrow (j i : nat)                           (* any_sender copy ctor / copy assignment (clone, clone_into) *)
+| SXNestThrow (j i : nat)                           (* unique_any_sender <- l-value any_sender (copies it) *)
+| SXMoveThrow (j i : nat)                           (* move ctor / assignment: move_into of an embedded object *)
+| SXMoveFromAnyThrow (j i : nat)
+| SXConnectRvThrow (j : nat).                       (* auto moved_storage = std::move(storage) *)
+
+Definition sxstep (sbo : bool) (op : sxop) (st : state) : outcome * state :=
+  match op with
+  | SX op => sstep sbo op st
+  | SXStoreThrow j v ctor => op1 (w_store_throw v ctor) j st
+  | SXCopyThrow j i => op2 w_copy_throw j i st
+  | SXNestThrow j i => op2 w_nest_throw j i st
+  | SXMoveThrow j i => op2 w_move_throw j i st
+  | SXMoveFromAnyThrow j i => op2 w_move_from_any_throw j i st
+  | SXConnectRvThrow j => op1 (w_connect_rv_throw sbo) j st
+  end.
+Definition sx_is_throw (op : sxop) : bool := match op with SX _ => false | _ => true end.
+
+(* ================================================================== throwing constructors, functions
+   basic_function::assign(F&&), function_base's copy constructor and op_assign(const&) run T's
+   constructor AFTER destroying the old object and WITHOUT resetting [object] / [vptr]:
+     assign, vptr == f_vptr : ~T() in place, new (object) T(f) throws      -> object still points at the destroyed T
+     assign, else           : destroy(); vptr = f_vptr; allocate; new T(f) throws
+                                                                            -> object = the old pointer (dangling, or nullptr
+                                                                               when the wrapper was empty), vptr = T's vtable;
+                                                                               a heap buffer from allocate is leaked
+     copy ctor              : vptr/object copied, allocate, new T throws    -> the constructor fails: no wrapper (heap buffer leaked)
+     op_assign, same vptr   : ~T() in place, new T throws                   -> as assign (finding F9b)
+     op_assign, else        : destroy(); vptr = other.vptr; copy throws     -> as assign
+   [stale j = Some t]: wrapper j has object == nullptr (empty() is true) but its vptr is the vtable of
+   t's type: it is NOT a consistent empty wrapper (invoking it calls T::operator() on nullptr; assigning
+   a T destroys a T at nullptr; copy-assigning from a function holding a T does NOTHING).
+   A wrapper whose [object] dangles is represented by its old storage (the identity is in dtors
+   already); when the old object had another type, vptr is the new type's and every later use,
+   including destruction, runs the wrong destructor: the harness does not generate that case. *)
+Definition f_store_throw (v : oval) (ctor : bool) (this : storage) (L : ledger)
+  : outcome * storage * ledger :=
+  let (tmp, L0) := fresh_obj v L in
+  (OThrew 0, if ctor then Empty else this, destroy tmp (release this L0)).
+Definition f_copy_ctor_throw (this other : storage) (L : ledger)
+  : outcome * storage * storage * ledger :=
+  match other with
+  | Empty => f_copy_ctor this other L            (* no copy constructor runs *)
+  | _ => (OThrew 0, Empty, other, release this L)
+  end.
 Definition f_copy_assign_throw (this other : storage) (L : ledger)
   : outcome * storage * storage * ledger :=
   match other with
@@ -452,9 +658,108 @@ Definition f_copy_assign_throw (this other : storage) (L : ledger)
   | _ => (OThrew 0, this, other, release this L)
   end.
 
-Inductive fxop := FX (op : fop) | FXCopyAssignThrow (j i : nat).
-Definition fxstep (op : fxop) (st : state) : outcome * state :=
+Record xstate := { xs : state; stale : list (option oval) }.
+Definition xinit (n : nat) : xstate := {| xs := init n; stale := repeat None n |}.
+Definition set_stale (x : xstate) (j : nat) (t : option oval) : xstate :=
+  {| xs := xs x; stale := set_nth j t (stale x) |}.
+Definition lift (r : outcome * state) (x : xstate) : outcome * xstate :=
+  (fst r, {| xs := snd r; stale := stale x |}).
+Definition is_stale (x : xstate) (j : nat) : bool :=
+  match nth j (stale x) None with Some _ => true | None => false end.
+Definition holds_type (s : storage) (t : oval) : bool :=
+  match s with Heap o | Inline o => same_type (ov o) t | _ => false end.
+Definition type_of (s : storage) : oval := match s with Heap o | Inline o => ov o | _ => bad_val end.
+
+Inductive gop :=
+| GF (op : fop)
+| GTarget (j : nat) (q : tquery)
+| GStoreThrow (j : nat) (v : oval) (ctor : bool)   (* W(F&&) (ctor) / operator=(F&&) / assign(F&&), l- or r-value *)
+| GCopyCtorThrow (j i : nat)
+| GCopyAssignThrow (j i : nat).
+
+Definition gstep (op : gop) (x : xstate) : outcome * xstate :=
+  let st := xs x in
   match op with
-  | FX op => fstep op st
-  | FXCopyAssignThrow j i => op2 f_copy_assign_throw j i st
+  | GF op =>
+    if existsb (is_stale x) (fop_slots op) then
+      match op with
+      | FReset j => lift (fstep op st) (set_stale x j None)
+      | FStore j _ _ true => lift (fstep op st) (set_stale x j None)
+      | FCopyAssign j i =>
+        match nth j (stale x) None, nth i (stale x) None with
+        | Some t, None =>
+          if negb (j =? i) && holds_type (slot (slots st) i) t then (ONone, x)   (* vptr == other.vptr, object == nullptr *)
+          else lift (fstep op st) (set_stale x j None)
+        | _, _ => (OUndef, x)
+        end
+      | _ => (OUndef, x)
+      end
+    else lift (fstep op st) x
+  | GTarget j q => (if is_stale x j then ONone else f_target q (slot (slots st) j), x)
+  | GStoreThrow j v ctor =>
+    match nth j (stale x) None with
+    | Some t =>
+      if ctor then lift (op1 (f_store_throw v true) j st) (set_stale x j None)
+      else if same_type t v then (OUndef, x)
+      else lift (op1 (f_store_throw v false) j st) (set_stale x j (Some v))
+    | None =>
+      lift (op1 (f_store_throw v ctor) j st)
+           (if negb ctor && (j <? length (slots st)) && is_empty (slot (slots st) j)
+            then set_stale x j (Some v) else x)
+    end
+  | GCopyCtorThrow j i =>
+    if is_stale x i then (OUndef, x)
+    else lift (op2 f_copy_ctor_throw j i st)
+              (if (j <? length (slots st)) && (i <? length (slots st)) && negb (j =? i) then set_stale x j None else x)
+  | GCopyAssignThrow j i =>
+    if is_stale x j || is_stale x i then (OUndef, x)
+    else
+      lift (op2 f_copy_assign_throw j i st)
+           (if (j <? length (slots st)) && (i <? length (slots st)) && negb (j =? i)
+               && is_empty (slot (slots st) j) && negb (is_empty (slot (slots st) i))
+            then set_stale x j (Some (type_of (slot (slots st) i))) else x)
   end.
+
+Fixpoint grun (ops : list gop) (x : xstate) : xstate :=
+  match ops with [] => x | op :: r => grun r (snd (gstep op x)) end.
+Fixpoint gtrace (ops : list gop) (x : xstate) : list (outcome * list event * list bool) * xstate :=
+  match ops with
+  | [] => ([], x)
+  | op :: r =>
+    let (o, x') := gstep op x in
+    let (t, fin) := gtrace r x' in
+    ((o, new_events (led (xs x)) (led (xs x')), map is_empty (slots (xs x'))) :: t, fin)
+  end.
+(* the throwing steps whose outcome is a consistent state: construction of a new wrapper *)
+Definition gsafe (op : gop) : bool :=
+  match op with
+  | GF _ | GTarget _ _ | GCopyCtorThrow _ _ => true
+  | GStoreThrow _ _ ctor => ctor
+  | GCopyAssignThrow _ _ => false
+  end.
+Definition g_is_throw (op : gop) : bool := match op with GF _ | GTarget _ _ => false | _ => true end.
+Definition gop_slots (op : gop) : list nat :=
+  match op with
+  | GF op => fop_slots op | GTarget j _ => [j] | GStoreThrow j _ _ => [j]
+  | GCopyCtorThrow j i => [j; i] | GCopyAssignThrow j i => [j; i]
+  end.
+
+(* ================================================================== storage decision, numerically
+   (Gen/GenErased.v is generated from any_sender.hpp, basic_function.hpp and vtable/vtable.hpp).
+   The histories use class bits (vbig, valn); the TYPES cases of the harness give sizeof / alignof
+   of every test type's Impl and the decision of the compiled can_use_embedded_storage<Impl>() /
+   vtable::allocate<T>; the driver recomputes the decisions with the generated definitions and
+   checks that the class bits used in the histories are the same decisions. *)
+Inductive wrapper_kind := KUnique | KAny | KOpState.
+Definition embedded_size (k : wrapper_kind) : N :=
+  match k with
+  | KUnique => unique_any_sender_embedded_size | KAny => any_sender_embedded_size
+  | KOpState => operation_state_embedded_size
+  end.
+Definition sender_embeds (sbo : bool) (k : wrapper_kind) (size align : N) : bool :=
+  sbo && can_use_embedded_storage size align (embedded_size k) sbo_alignment_size.
+Definition function_inline (size : N) : bool := negb (allocate_heap size function_storage_size).
+(* the class bits a test type of the given Impl size / alignment must carry *)
+Definition class_ok (sbo : bool) (k : wrapper_kind) (size align : N) (big aln : bool) : bool :=
+  Bool.eqb (sender_embeds sbo k size align) (sbo && negb big && negb aln) &&
+  (negb aln || (sbo_alignment_size <? align)%N) && (aln || (align <=? sbo_alignment_size)%N).
